@@ -1,5 +1,6 @@
 SPECIFICATION Spec
 CONSTANTS
+  AllowToggle <- Yes
   Users <- T_Users
   Chans <- T_Chans
   NickPool <- T_Pool
